@@ -202,38 +202,53 @@ def _run_sharded(binary, lines, shards, timeout, isolate=True):
     if not lines:
         return {}
     shards = max(1, min(shards, len(lines)))
-    chunks = [lines[i::shards] for i in range(shards)]
-    procs = []
-    for ch in chunks:
-        p = subprocess.Popen([binary], stdin=subprocess.PIPE, stdout=subprocess.PIPE, stderr=subprocess.DEVNULL, text=True)
-        procs.append((p, ch))
-    # feed all, then collect (inputs are small enough for pipes thanks to threads-free design: use communicate sequentially)
     import threading
-    results = [None] * len(procs)
 
-    def work(i, p, ch):
-        try:
-            out, _ = p.communicate("\n".join(ch) + "\n", timeout=timeout)
-            results[i] = out
-        except subprocess.TimeoutExpired:
-            p.kill()
-            results[i] = ""
-    ths = [threading.Thread(target=work, args=(i, p, ch)) for i, (p, ch) in enumerate(procs)]
-    for t in ths:
-        t.start()
-    for t in ths:
-        t.join()
+    def run_round(todo):
+        """One sharded run. Returns (outputs by case id, cases that must be run again, cases that crashed the process)."""
+        chunks = [todo[i::shards] for i in range(shards)]
+        chunks = [ch for ch in chunks if ch]
+        procs = [(subprocess.Popen([binary], stdin=subprocess.PIPE, stdout=subprocess.PIPE, stderr=subprocess.DEVNULL, text=True), ch) for ch in chunks]
+        results = [None] * len(procs)
+
+        def work(i, p, ch):
+            try:
+                out, _ = p.communicate("\n".join(ch) + "\n", timeout=timeout)
+                results[i] = out
+            except subprocess.TimeoutExpired:
+                p.kill()
+                results[i] = ""
+        ths = [threading.Thread(target=work, args=(i, p, ch)) for i, (p, ch) in enumerate(procs)]
+        for t in ths:
+            t.start()
+        for t in ths:
+            t.join()
+        got, again, crashed = {}, [], []
+        for (p, ch), out in zip(procs, results):
+            for l in (out or "").split("\n"):
+                if l:
+                    parts = l.split("\t")
+                    got[parts[0]] = parts[1:]
+            # outputs come in input order: the first case of the shard without output is the one that killed the process
+            # (abort, segfault, hang); the cases after it were never run
+            rest = [l for l in ch if l.split("\t", 1)[0] not in got]
+            if rest:
+                crashed.append(rest[0])
+                again.extend(rest[1:])
+        return got, again, crashed
+
     res = {}
-    for out in results:
-        for l in (out or "").split("\n"):
-            if not l:
-                continue
-            parts = l.split("\t")
-            res[parts[0]] = parts[1:]
-    # a crash (abort, segfault) kills a whole shard: re-run the cases that produced no output one per
-    # process, so that only the cases that really crash stay without output
-    missing = [l for l in lines if l.split("\t", 1)[0] not in res]
-    if missing and isolate and len(missing) <= 4000:
+    todo = list(lines)
+    suspects = []
+    rounds = 0
+    while todo and rounds < 200:
+        got, again, crashed = run_round(todo)
+        res.update(got)
+        suspects.extend(crashed)
+        todo = again
+        rounds += 1
+    # the suspects get one more chance alone (a timeout of the whole shard is not the fault of its first unanswered case)
+    if suspects and isolate:
         from concurrent.futures import ThreadPoolExecutor
 
         def one(l):
@@ -243,7 +258,7 @@ def _run_sharded(binary, lines, shards, timeout, isolate=True):
             except subprocess.TimeoutExpired:
                 return ""
         with ThreadPoolExecutor(max_workers=NPROC) as ex:
-            for out in ex.map(one, missing):
+            for out in ex.map(one, suspects):
                 for l in (out or "").split("\n"):
                     if l:
                         parts = l.split("\t")
